@@ -46,6 +46,51 @@ fn canon(tx: &tir::Tx) -> String {
     canon_tx_gal(tx)
 }
 
+/// bytes of a template whose `fees` expression is `List` nested `depth` deep (a well-shaped
+/// nesting bomb: every level is what the typed decoder expects), built by splicing
+pub fn shaped_bomb(depth: usize) -> Vec<u8> {
+    let mut tx = tir::Tx {
+        fees: tir::Expression::String("@@".into()),
+        references: vec![],
+        inputs: vec![],
+        outputs: vec![],
+        validity: None,
+        mints: vec![],
+        burns: vec![],
+        adhoc: vec![],
+        collateral: vec![],
+        signers: None,
+        metadata: vec![],
+    };
+    let (bytes, _) = to_bytes(&tx);
+    tx.fees = tir::Expression::None;
+    let marker: Vec<u8> = [&[0xa1u8, 0x66][..], b"String", &[0x62], b"@@"].concat();
+    let pos = bytes.windows(marker.len()).position(|w| w == &marker[..]);
+    let Some(pos) = pos else { return bytes };
+    let mut out = bytes[..pos].to_vec();
+    for _ in 0..depth {
+        out.extend([0xa1, 0x64]);
+        out.extend(b"List");
+        out.push(0x81);
+    }
+    out.push(0x64);
+    out.extend(b"None");
+    out.extend(&bytes[pos + marker.len()..]);
+    out
+}
+
+/// child process: decode one nesting bomb on the main thread (default stack)
+pub fn bomb_cmd(kind: &str, depth: usize) {
+    let bytes = match kind {
+        "array" => vec![0x81; depth],
+        "map" => (0..depth).flat_map(|_| [0xa1u8, 0x60]).collect(),
+        "tag" => vec![0xc1; depth],
+        _ => shaped_bomb(depth),
+    };
+    let r = tx3_tir::encoding::from_bytes(&bytes, tx3_tir::encoding::TirVersion::V1Beta0);
+    println!("{}", if r.is_ok() { "ok" } else { "err" });
+}
+
 pub fn run(ctx: &mut Ctx) {
     let mut r = Rng::new(ctx.seed ^ 0xC11);
     let n = if ctx.thorough { 4000 } else { 300 };
@@ -175,6 +220,24 @@ pub fn run(ctx: &mut Ctx) {
         // the decoder thread died (abort / stack exhaustion): report as a failing case
         g_texts.push("(mk_gcase 2%N false)".to_string());
     }
+    // nesting bombs on a default-size stack, one process each: the decoder must answer
+    let mut impl_violations = vec![];
+    let mut bombs_run = 0usize;
+    for (kind, depth) in [("shaped", 3usize), ("shaped", 100), ("shaped", 2_000), ("shaped", 30_000), ("shaped", 300_000), ("array", 200_000), ("map", 200_000), ("tag", 200_000)] {
+        let out = std::process::Command::new(std::env::current_exe().unwrap()).arg("c11bomb").arg(kind).arg(depth.to_string()).output();
+        bombs_run += 1;
+        match out {
+            Ok(o) if o.status.success() => {
+                if kind == "shaped" && depth == 3 && String::from_utf8_lossy(&o.stdout).trim() != "ok" {
+                    impl_violations.push(serde_json::json!({"index": -1, "ids": [132], "what": "the depth-3 control of the shaped nesting input does not decode (harness)", "kind": kind, "depth": depth}));
+                }
+            }
+            Ok(o) => impl_violations.push(serde_json::json!({"index": -1, "ids": [131], "what": "decoding a nested input kills the process instead of returning an error", "kind": kind, "depth": depth, "status": format!("{:?}", o.status)})),
+            Err(e) => impl_violations.push(serde_json::json!({"index": -1, "ids": [132], "what": format!("could not run the child process: {}", e)})),
+        }
+    }
+    ctx.meta.insert("impl_violations".into(), serde_json::json!(impl_violations));
+    ctx.meta.insert("nesting_bombs_in_child_processes".into(), serde_json::json!(bombs_run));
     ctx.write_cases("C11g", "From Tx3 Require Import Base Tir PlutusData Serde C11_check.", "gcase", "grun", &g_texts, 5000);
     ctx.meta.insert("evaluations".into(), serde_json::json!(texts.len() + g_texts.len()));
     ctx.meta.insert("roundtrip_cases".into(), serde_json::json!(texts.len()));
